@@ -328,6 +328,12 @@ def run(chk, repo):
     ok = ok and kws.get("size") in ("self.chunk_size * self.nchannels", "self.chunk_size * self.channels") and kws.get("dfmt") == "self.dfmt"
     chk.decide(ok, "C17.deliver", W("AudioThread.run"), "for chunk in " + unparse(lp.iter),
                why="chunks of chunk_size frames (x channels) of the audio, in order", node=lp)
+    # the chunk strategies the players draw from: one buffer per call (players run concurrently)
+    from .c18 import buffers_built_here
+    for sname_ in ("struct", "array"):
+        cs_ = repo.strategy(LI, "chunks", sname_, required=False) if hasattr(repo, "strategy") else None
+        if cs_ is not None:
+            buffers_built_here(chk, mod, cs_.node, "C17.deliver", W("chunks[%s]" % sname_))
     first = lp.body[0]
     ok = isinstance(first, ast.Expr) and unparse(first.value) == "self.write_stream(st, %s, self.chunk_size, False)" % unparse(lp.target)
     chk.decide(ok, "C17.deliver", W("AudioThread.run"), short(first), why="every chunk is written exactly once, first thing "
